@@ -799,12 +799,15 @@ class from_iterable(Source):
         super().__init__(**kwargs)
 
     async def run(self):
-        for x in self._iterable:
-            if self.stopped:
+        iterator = iter(self._iterable)
+        # the flag is looked at before an item is taken, so that an item is
+        # never pulled from the iterable and then dropped
+        while not self.stopped:
+            try:
+                x = next(iterator)
+            except StopIteration:
                 break
             await asyncio.gather(*self._emit(x))
-            if self.stopped:
-                break
         self.stopped = True
 
 
